@@ -58,12 +58,16 @@ ASSUMPTIONS = ["node ids are Python ints of either sign (model: Z), written by s
                "is keyed by the NON-NEGATIVE nodes only: the name pattern (\\d+) cannot match a signed id, so a name on a "
                "negative id is outside the reading of 'well-formed instance'",
                "weights are finite Python floats (nan/inf excluded by the quantifier: 'any finite float value')",
-               "metadata values and alternative names contain no \\n / \\r and str.strip() is the identity on them; the empty "
-               "name is included.  In ~90 % of the cases they contain none of the 10 str.splitlines boundaries (the wf "
-               "predicate of the theorems: wf_field = no_break) and are checked through parse_file, get_parsed_instance AND "
-               "parse_str; in ~10 % a value has \\x0b \\x0c \\x1c \\x1d \\x1e \\x85 U+2028 U+2029 strictly inside: these lie "
-               "OUTSIDE the theorems' wf predicate and are correspondence-only, judged against the model's readlines path "
-               "(parse_file / get_parsed_instance; parse_str is not claimed for them)",
+               "metadata values and alternative names contain no \\n / \\r and str.strip() is the identity on them "
+               "(wf_field_rl, the hypothesis of C09_roundtrip / C09_idempotent / C09_header_only); the empty name, '#', ':', "
+               "',' and whole fake header / edge lines as values are included.  In ~90 % of the cases they also contain "
+               "none of the other eight str.splitlines boundaries and are checked through parse_file, "
+               "get_parsed_instance AND parse_str (C09_roundtrip_str needs the stronger wf_field); in ~10 % a value has "
+               "\\x0b \\x0c \\x1c \\x1d \\x1e \\x85 U+2028 U+2029 strictly inside: still inside the hypothesis of the file-path "
+               "theorems, checked through parse_file / get_parsed_instance only (parse_str is not claimed for them)",
+               "excluded classes (each with a _refuted witness in Properties/C09.v, run on the implementation as "
+               "'excluded class ...'): \\n or \\r inside a value, outer whitespace of a value, num_edges != number of "
+               "edges, no edge, a name on a negative node id",
                "well-formed matching instance: num_edges = number of stored edges, alternatives_name keyed by the "
                "non-negative nodes, num_alternatives = number of nodes, data_type 'wmd', at least one edge"]
 TIMEOUT_S = 60.0
@@ -143,9 +147,17 @@ ALPHABET = list("abcXYZ019 _-.:#,{}()/\\'\"%&;") + ["\t"] + [chr(k) for k in (0x
                                                                               0x660, 0x200b, 0x3000)]
 
 
+# values that look like pieces of the file format: a written line must never be mis-classified (C09_lines_classified)
+TRICKY = ["#", ":", "# NUMBER EDGES: 99", "# NUMBER ALTERNATIVES: 7", "# ALTERNATIVE NAME 1: zz", "# DATA TYPE: soc",
+          "# NUMBER VOTERS: 3", "1, 2, 0.5", "-2, 1, 9", "# FILE NAME: x", ": ,# {", "#1, 2, 3", "1,2", ",", "# TITLE:",
+          "x # y : z", "3: a", "# ALTERNATIVE NAME 2:", "NUMBER EDGES: 5", "#\t# NUMBER EDGES: 1"]
+
+
 def rand_text(rng, allow_empty=True, maxlen=12):
     if allow_empty and rng.random() < 0.12:
         return ""
+    if rng.random() < 0.08:
+        return rng.choice(TRICKY)
     for _ in range(50):
         s = "".join(rng.choice(ALPHABET) for _ in range(rng.randint(1, maxlen)))
         if s == s.strip() and not (set(s) & LINE_BOUNDARIES) and s:
@@ -323,6 +335,7 @@ def generate(tier, seed):
         out.append(mk_case(meta, 0, [(1, "St Mary" + ch + "(annex)"), (2, "b")],
                            [[1, 1, 2, bits_of_f(0.5)], [1, 2, 1, bits_of_f(-1e16)]], mode=j % 2, lb=1))
     out.extend(fidelity_cases(rng, 150 if tier == "quick" else 1500))
+    out.extend(excluded_cases())
     # ---- small history cases: every edge of a small graph overwritten after the first write
     for k in (1, 2, 3):
         pairs = [(a, b) for a in range(1, k + 1) for b in range(1, k + 1)]
@@ -394,6 +407,95 @@ def fidelity_cases(rng, n):
         out.append(case("c09.parse", [int(rng.random() < 0.4), int(rng.random() < 0.3), i % 2, proto.text(text)],
                         fidelity=1))
     return out
+
+
+# ------------------------------------------------------------------------------------------------ excluded classes
+# The witnesses of Properties/C09.v (C09_*_refuted, C09_needs_an_edge) on the implementation: instances OUTSIDE the
+# hypothesis wf_core_rl of the theorems, on which the round trip really fails.  Recorded in the distribution
+# ("excluded class ..."); never a violation (an implementation that copes better with them breaks no property).
+def excluded_cases():
+    base_meta = ["ex.wmd", "A title, with: separators # {}", "", "wmd", "synthetic", "", "a.wmd,b.wmd", "2024-01-01",
+                 "2024-01-02"]
+    edges = [[-2, -2, bits_of_f(0.5)], [1, -2, bits_of_f(7.0)], [-2, 1, bits_of_f(1e21)]]
+    names = [[1, ""], [3, "c"]]
+
+    def mk(kind, meta=None, nm=None, es=None, ne=-1):
+        m = list(base_meta if meta is None else meta)
+        return case("c09.excluded", [proto.text(kind), [proto.text(x) for x in m],
+                                     [[a, proto.text(t)] for a, t in (names if nm is None else nm)],
+                                     edges if es is None else es, ne], excluded=1)
+
+    def title(t):
+        m = list(base_meta)
+        m[1] = t
+        return m
+    return [mk("newline inside a value (C09_newline_refuted)", meta=title("a\nb")),
+            mk("carriage return inside a value (C09_cr_refuted)", meta=title("a\rb")),
+            mk("newline inside a name (C09_name_newline_refuted)", nm=[[1, "x\ny"], [3, "c"]]),
+            mk("newline inside a value, rest looks like a header line (C09_newline_silent_refuted)", meta=title("a\n# b")),
+            mk("leading blank of a value (C09_outer_space_refuted)", meta=title(" a")),
+            mk("trailing form feed of a name (C09_name_trailing_ff_refuted)", nm=[[1, "x\x0c"], [3, "c"]]),
+            mk("num_edges is not the number of edges (C09_wrong_num_edges_refuted)", ne=5),
+            mk("no edge (C09_needs_an_edge)", es=[]),
+            mk("name on a negative node id (not expressible in the model: keys of alternatives_name are N)",
+               nm=[[-2, "x"], [1, "y"]])]
+
+
+def impl_excluded(c):
+    from preflibtools.instances import MatchingInstance
+    kind, meta, names, edges, ne = c["payload"]
+    inst = MatchingInstance()
+    for n in (1, -2, 3):
+        inst.add_node(n)
+    for a, b, w in edges:
+        inst.add_edge(a, b, f_of_bits(w))
+    for f, v in zip(META_FIELDS, meta):
+        setattr(inst, f, proto.untext(v))
+    inst.alternatives_name = {a: proto.untext(t) for a, t in names}
+    inst.num_alternatives = len(inst.node_mapping)
+    inst.num_edges = ne if ne >= 0 else sum(len(x) for x in inst.node_mapping.values())
+    paths = [_scratch(), _scratch()]
+    try:
+        inst.write(paths[0])
+        t1 = _read_raw(paths[0])
+        b = observe(inst)
+        res = {"excluded": 1, "inst": model_payload(inst) if all(a >= 0 for a, _ in names) else None, "before": b}
+        r, inst2 = _guard_obs(_parse_file, paths[0])
+        res["file"] = r
+        if inst2 is not None:
+            inst2.write(paths[1])
+            res["same_bytes"] = _read_raw(paths[1]) == t1
+        return res
+    finally:
+        for p in paths:
+            try:
+                os.remove(p)
+            except OSError:
+                pass
+
+
+def excluded_verdict(c, r, mres):
+    """(fails on the implementation?, agrees with the model?)"""
+    b, f = r["before"], r["file"]
+    if "err" in f:
+        impl_out = ("err", f["err"][0])
+    else:
+        o = f["ok"]
+        same = (o["edges"] == b["edges"] and o["names"] == b["names"] and o["meta"] == b["meta"]
+                and o["num_edges"] == b["num_edges"] and o["num_alternatives"] == b["num_alternatives"] and r["same_bytes"])
+        impl_out = ("ok", same, o["meta"], o["names"], o["num_edges"], r["same_bytes"])
+    fails = impl_out[0] == "err" or not impl_out[1]
+    if not mres:
+        return fails, None
+    rt, t1, t2 = mres[0]
+    if rt[0] != 0:
+        model_out = ("err", rt[1])
+    else:
+        mc = model_content(rt[1])
+        model_out = ("ok", None, mc["meta"], mc["names"], mc["num_edges"], t1 == t2)
+    agree = (impl_out[0] == model_out[0] == "err" and impl_out[1] == model_out[1]) or \
+            (impl_out[0] == model_out[0] == "ok" and impl_out[2:] == model_out[2:])
+    return fails, agree
 
 
 # ------------------------------------------------------------------------------------------------ implementation side
@@ -566,6 +668,8 @@ def impl_fidelity(c):
 def impl(c):
     if c["op"] == "c09.parse":
         return impl_fidelity(c)
+    if c["op"] == "c09.excluded":
+        return impl_excluded(c)
     paths = []
     try:
         hist = {"paths": paths}
@@ -616,6 +720,8 @@ def impl(c):
 
 # ------------------------------------------------------------------------------------------------ model side
 def oracle_requests(c, r):
+    if c["op"] == "c09.excluded":
+        return [("c09.roundtrip", r["inst"])] if isinstance(r, dict) and r.get("inst") else []
     if c["op"] == "c09.parse":
         ac, ho, splitter, text = c["payload"]
         fname = r.get("fname", "") if isinstance(r, dict) else ""
@@ -720,8 +826,8 @@ def fidelity_verdict(c, r, mres):
 
 
 def judge(c, r, mres):
-    if c["op"] == "c09.parse":
-        return None                     # recorded by stats(), see fidelity_cases
+    if c["op"] in ("c09.parse", "c09.excluded"):
+        return None                     # recorded by stats(), see fidelity_cases / excluded_cases
     if not isinstance(r, dict) or "text1" not in r:
         return {"kind": "exception", "reason": "implementation side returned %r" % (r,)}
     if r["hyp"]:
@@ -825,7 +931,7 @@ def judge(c, r, mres):
 
 
 def nontrivial(c, r, m):
-    if c["op"] == "c09.parse":
+    if c["op"] in ("c09.parse", "c09.excluded"):
         return False
     b = r["before"]
     return len(b["edges"]) >= 2 and any(f_of_bits(w) != int(f_of_bits(w)) for _, _, w in b["edges"]
@@ -837,6 +943,11 @@ def _bucket(n):
 
 
 def stats(c, r, m):
+    if c["op"] == "c09.excluded":
+        kind = proto.untext(c["payload"][0])
+        fails, agree = excluded_verdict(c, r, m)
+        return ["excluded class: %s -- round trip fails on the implementation: %s; model behaves the same: %s"
+                % (kind, "yes" if fails else "NO", "n/a" if agree is None else ("yes" if agree else "NO"))]
     if c["op"] == "c09.parse":
         v = fidelity_verdict(c, r, m)
         kind = "raises" if "err" in r.get("fidelity", {}) else "parses"
@@ -882,6 +993,8 @@ def stats(c, r, m):
         labels.append("equal weights")
     if any(nm == "" for _, nm in b["names"]):
         labels.append("empty name")
+    if any(proto.untext(t) in TRICKY for t in pl[0]) or any(proto.untext(t) in TRICKY for _, t in pl[2]):
+        labels.append("a value that looks like a piece of the file format ('#', ':', fake header / edge line)")
     if has_inner_break(c["payload"]):
         labels.append("line-boundary character (not \\n, \\r) inside a name / metadata value: parse_file path only")
     reprs = [repr(w) for w in ws]
@@ -912,6 +1025,10 @@ def _calls(ops):
 
 
 def describe(c):
+    if c["op"] == "c09.excluded":
+        kind, meta, names, edges, ne = c["payload"]
+        return {"excluded_class": proto.untext(kind), "metadata": [proto.untext(t) for t in meta],
+                "names": [[a, proto.untext(t)] for a, t in names], "edges": edges, "num_edges_field": ne}
     if c["op"] == "c09.parse":
         ac, ho, splitter, text = c["payload"]
         return {"autocorrect": ac, "header_only": ho, "entry": "parse_file" if splitter == 0 else "parse_str",
@@ -928,7 +1045,7 @@ def describe(c):
 
 
 def shrink(c):
-    if c["op"] == "c09.parse":
+    if c["op"] in ("c09.parse", "c09.excluded"):
         return
     meta, nv, alts, ops, h_ops, mode = unpack(c["payload"])
 
